@@ -381,6 +381,25 @@ type RecEmbF struct {
 	M map[string]RecEmbE
 }
 
+// tags whose name is not valid (a backslash) count as no tag at all
+type InvTagInner struct{ A int }
+type InvTagEmbedded struct {
+	InvTagInner `json:"\\"`
+	B           int
+}
+type InvTagSame struct {
+	X int `json:"\\"`
+	Y int `json:"X"`
+}
+type InvTagE1 struct {
+	X int `json:"\\"`
+}
+type InvTagE2 struct{ X int }
+type InvTagDom struct {
+	InvTagE1
+	InvTagE2
+}
+
 type MutRoot struct {
 	A MutA
 	B MutB
